@@ -167,11 +167,15 @@ def run_unit(ctx, unit):
         case = core.Case(largs, endless=(prefix, TAIL_PRE_U, TAIL_POST, cap), watchdog_ms=30000)
     elif unit["transport"] == "fifo":
         case = core.Case(largs + ["@D@/endless.fifo"], efifos=[("endless.fifo", prefix, TAIL_PRE_U, TAIL_POST, cap)], watchdog_ms=30000)
-    elif unit["transport"] == "file+idle-fifo" and (T == 0 or deciding <= len(parts)):
-        # every wanted row lies in an ordinary file; the next input is a FIFO nobody writes to (opening it would block for
-        # ever): it must be left alone
-        in_file = len(prefix)
-        case = core.Case(["@D@/first.json", "@D@/idle.fifo"] + largs, files=[("first.json", prefix)], fifos=["idle.fifo"], watchdog_ms=30000)
+    elif unit["transport"] == "file+idle-fifo":
+        # every wanted row lies in an ordinary file - a large one, of which only the beginning is needed; the next input is a FIFO
+        # nobody writes to (opening it would block for ever): it must be left alone.  Sometimes another process holds a lock
+        # on the file: that is its business, reading needs no lock
+        pad = (TAIL_PRE_U + b"1" + TAIL_POST) if not blank else TAIL_POST
+        body = b"".join(allvals) + pad * (1 + (1500000 // max(1, len(pad))))
+        in_file = len(body)
+        case = core.Case(["@D@/first.json", "@D@/idle.fifo"] + largs, files=[("first.json", body)], fifos=["idle.fifo"], watchdog_ms=30000,
+                         lockfiles=["first.json"] if unit["S"] == 1 else [])
     else:
         # the first records in an ordinary file, the rest and the endless tail in a FIFO given as the second input
         k = min(unit.get("file_parts", 0), len(parts))
@@ -207,7 +211,9 @@ def run_unit(ctx, unit):
         if o.fifo and o.fifo[0]:
             bad("opened-unneeded-input", "all %d wanted rows come from the first file, yet the following input (a FIFO without a writer) was opened" % need)
             return
-        pulled, capped, slack = 0, False, SLACK
+        # bytes the process read from the file (read(2) accounting of the kernel): bounded by what the wanted rows need
+        st.count("file_bytes_read_total", o.rchar)
+        pulled, capped, slack = o.rchar, False, SLACK + 16 * 1024
     elif unit["transport"] == "stdin":
         pulled, capped = o.pulled, o.cap_hit
         slack = SLACK
